@@ -142,7 +142,7 @@ def run(ctx, rep):
             rep.oblige('R1.4', '%s|bb%d' % (RN.name, b), ok=ok, nontrivial=True,
                        sample={'fn': RN.name, 'at': RN.loc(t['span']), 'site': t['span']['snip'][:60]})
             if not ok:
-                rep.violation('R1.4', vkey('R1.4', RN.name, t.get('callee') or 'drop', t['span']['snip']),
+                rep.violation('R1.4', vkey('R1.4', RN.name, 'delete-before-publish', ''),
                               RN.loc(t['span']),
                               'rename deletes the source entry before the destination entry has been written: if the '
                               'destination directory cannot take the entry (e.g. a full fixed-size root) the call fails '
